@@ -33,6 +33,12 @@ def i2c_alphabet(load, cmds=None, sdas=(0, 1), pokes=((0, 0, 0), (1, 0xa5, 0), (
     return [c + (s, load) + p for c in cmds for s in sdas for p in pokes]
 
 
+def i2cm_alphabet(exts=((1, 1), (1, 0), (0, 1))):
+    ops = [(0, 0, 0, 0, 0), (1, 1, 1, 1, 1), (1, 1, 0, 0, 0)] + \
+          [(1, 1, 1, 0, d) for d in (L.I2C_S, L.I2C_P, L.I2C_W | 0x55, L.I2C_W | 0xaa, L.I2C_R, L.I2C_R | 256)]
+    return [op + e for op in ops for e in exts]
+
+
 def jobs(tier):
     quick = tier == "quick"
     J = []
@@ -74,11 +80,14 @@ def jobs(tier):
     A(lambda: L.SpiMasterInst(2, False, spi_alphabet(2, 2, lengths=(0, 1, 2, 3), words=(1,) if quick else (1, 2),
                                                      cs=((0, 0), (1, 0), (1, 1)), lbs=(0, 1)),
                               tag="/div2/cs,loopback,length 0..3"), heavy=True, max_states=800 if quick else 3000000)
-    A(lambda: L.SpiSlaveInst(2, L.prod((0, 1), (0, 1), (0, 1), (1, 2), (0,))), heavy=True, max_states=4000 if quick else 1500000)
+    A(lambda: L.SpiSlaveInst(2, L.prod((0, 1), (0, 1), (0, 1), (1, 2), (0,))), heavy=True, max_states=2000 if quick else 1500000)
     # ---- (5) I2C machine: all command letters (incl. compound and overlapping ones), data pokes
     A(lambda: L.I2cInst(2, 1, i2c_alphabet(1, sdas=(1,)), tag="/all commands"), heavy=True, max_states=30000 if quick else 3000000)
     A(lambda: L.I2cInst(2, 0, i2c_alphabet(0, cmds=[(0, 0, 0, 0), (0, 0, 1, 0), (0, 0, 0, 1), (0, 1, 0, 0), (1, 0, 0, 0)],
                                            pokes=((0, 0, 0),)), tag="/sda free"), heavy=True, max_states=5000 if quick else 3000000)
+
+    # ---- I2CMaster (registers + machine + pad stage): bus writes in every state (busy included), ext lines
+    A(lambda: L.I2cMasterInst(1, alphabet=i2cm_alphabet(), tag="/A"), heavy=True, max_states=2000 if quick else 1500000)
 
     # ---- mode B: realistic sizes
     B(lambda: L.mk_timer(32))
